@@ -297,11 +297,13 @@ def value_case(ctx, case):
         ctx.fail('value', 'E2-encode-raises', case, None, 'no exception',
                  exc=e)
         sink = None
-    is_nan = isinstance(v, float) and math.isnan(v)
-    if is_nan and sink is not None:
-        # any NaN bit pattern is a correct encoding of NaN
+    if _has_nan(v) and sink is not None:
+        # any NaN bit pattern is a correct encoding of NaN: compare the
+        # reference decoding (NaN-aware) and the length instead of bytes
         try:
-            ok = math.isnan(ref_dec(spec, sink.value, 0)[0]) and \
+            dv, dp = ref_dec(spec, sink.value, 0)
+            rv = ref_dec(spec, sorted(allowed)[0], 0)[0]
+            ok = same(spec, rv, dv) and dp == len(sink.value) and \
                 len(sink.value) in {len(a) for a in allowed}
         except wire.WireError:
             ok = False
@@ -376,6 +378,14 @@ def value_case(ctx, case):
                      dict(case, prefixes=[cut]),
                      'returned %r for %d of %d bytes' % (got, cut, len(data)),
                      'raises')
+
+
+def _has_nan(v):
+    if isinstance(v, float):
+        return math.isnan(v)
+    if isinstance(v, list):
+        return any(_has_nan(e) for e in v)
+    return False
 
 
 def _contains_trailing(spec):
